@@ -68,7 +68,7 @@ def cases():
     by_id = gens.cell_ids(6, 29).map(lambda c: {"cell": hex(c)})
     by_loc = st.builds(lambda p, r: {"lon": p["lon"], "lat": p["lat"], "res": r, "cls": p["cls"]},
                        gens.pts_base(), gens.resolutions(2, 29))
-    return st.one_of(by_id, by_loc)
+    return st.one_of(by_id, by_loc, gens.edge_scaled_cases(2, 29))
 
 
 def stage_hyp(ctx):
@@ -76,8 +76,19 @@ def stage_hyp(ctx):
     hyp_drive(ctx, cases(), judge, n)
 
 
+def stage_boundary(ctx):
+    """Cells containing the places where the library's own branches flip (lib/boundary.py)."""
+    from lib import boundary
+    anc = boundary.anchors(ctx, "cell", 100 if ctx.tier == "quick" else 500) + boundary.anchors(ctx, "proj", 100 if ctx.tier == "quick" else 500)
+    if not anc:
+        ctx.col.count("boundary_stage_skipped")
+        return
+    strat = st.builds(lambda p, r: {"lon": p["lon"], "lat": p["lat"], "res": r, "cls": p["cls"]}, boundary.anchor_points(anc), gens.resolutions(2, 29))
+    hyp_drive(ctx, strat, judge, 150 if ctx.tier == "quick" else 6000)
+
+
 def plan(tier):
-    return [Stage("enum", 16, stage_enum, cost=10), Stage("hyp", 16, stage_hyp, cost=5)]
+    return [Stage("enum", 16, stage_enum, cost=10), Stage("hyp", 16, stage_hyp, cost=5), Stage("boundary", 16, stage_boundary, cost=4)]
 
 
 def replay(rec, col):
